@@ -35,10 +35,10 @@ CLAIMED = {
                 "s in [1,n/2], verifies with the library verifier, which accepts exactly the textbook ECDSA equation, r = x(kG) mod n for a "
                 "consumed non-zero draw k, and two signatures sharing r come from draws equal up to sign (no dependence on key/message); DER "
                 "is strict per BIP66 (transcribed), minimal and decodes back for all 1 <= r,s < 2^256; the sighash suffix equals the flag in "
-                "both modes. Premise curve_facts is PROVED for secp256k1 itself in coq/GL + Props/Secp256k1.v (generic group law of short Weierstrass curves over prime fields, Pocklington primality certificates for p and n, n*G = infinity by a checked slope certificate, square-root facts for p = 3 mod 4; closed under the global context) and by exhaustive kernel computation on three small curves; of curve_facts_x only `G generates every curve point` (point counting) stays a premise for secp256k1. Correspondence: "
+                "both modes. Premise curve_facts is PROVED for secp256k1 itself in coq/GL + Props/Secp256k1.v (generic group law of short Weierstrass curves over prime fields, Pocklington primality certificates for p and n, n*G = infinity by a checked slope certificate, square-root facts for p = 3 mod 4; closed under the global context) and by exhaustive kernel computation on three small curves; curve_facts_x (equal x means equal or opposite; G generates every curve point, i.e. the curve has exactly n points) is PROVED for secp256k1 too (GL/PointCount.v: elementary counting argument, no Hasse bound), so no curve premise is left. Correspondence: "
                 "scripted randbelow on secp256k1 (boundary keys/digests/draws, digests solved so that s hits n/2, n/2+1, 1, n-1), OpenSSL as "
                 "independent verifier, and the Python re-targeted to the small curves over all (key, digest, nonce).",
-        "note": "The curve premises (group law, primality of p and n, order of G, square roots) are discharged for secp256k1 in Props/Secp256k1.v; only `G generates every curve point` (used by the nonce-collision theorem) stays a premise. sha256 arbitrary. The wrapper clause (sig -> sig_verify 'OK' "
+        "note": "The curve premises (group law, primality of p and n, order of G, square roots) are discharged for secp256k1 in Props/Secp256k1.v; `G generates every curve point` (used by the nonce-collision theorem) is a theorem as well (Props/Secp256k1.v: secp256k1_generated, secp256k1_point_count; instance C01_r_collision_needs_repeat_secp256k1). sha256 arbitrary. The wrapper clause (sig -> sig_verify 'OK' "
                 "under the compressed and the uncompressed key, both message modes) is proved too, under sec1_facts (square roots mod p). "
                 "Trusted: Coq kernel, extraction, harness, hashlib, OpenSSL as extra oracle.",
         "technique": "Coq proof (group theory + modular arithmetic + DER/BIP66 lemmas) + checked model/code correspondence",
@@ -53,7 +53,7 @@ CLAIMED = {
                 "satisfies the equation; (r, n-s) is accepted iff (r, s) is; the low-S helper returns strict BIP66 DER with the same r and "
                 "the low representative of s. Correspondence: valid signatures with bit flips, range boundaries, s->n-s, digests >= n, "
                 "crafted infinity sums, malformed keys/DER, OpenSSL verdicts on secp256k1; ALL tuples sampled/enumerated on small curves.",
-        "note": "curve_facts is discharged for secp256k1 in Props/Secp256k1.v (coq/GL); of curve_facts_x only `G generates every curve point` stays a premise there (used by the malleability theorem). sha256 "
+        "note": "curve_facts is discharged for secp256k1 in Props/Secp256k1.v (coq/GL); curve_facts_x incl. `G generates every curve point` is a theorem there too (GL/PointCount.v; instance C02_malleated_s_secp256k1). sha256 "
                 "arbitrary. Trusted: Coq kernel, extraction, harness, hashlib, OpenSSL as extra oracle.",
         "technique": "Coq proof (iff with the textbook verification equation, modular arithmetic, DER/BIP66) + checked correspondence",
         "design": "DESIGN.md section 8 / C02",
@@ -167,7 +167,7 @@ CLAIMED = {
                 "points, messages 0..1024 bytes, every single-bit flip of pk/msg/sig (thorough), boundary r/s, wrong lengths, exhaustive "
                 "sweeps on three small curves, independent Python BIP340 reference.",
         "note": "curve_facts and lift_facts (square roots) are discharged for secp256k1 in Props/Secp256k1.v (coq/GL); `cofactor one` (the curve has "
-                "exactly n points) stays an explicit premise there (proved on the small curves); the e = 0 (mod n) deviation needs a SHA-256 preimage to reach on secp256k1 and is reported in the evidence, "
+                "exactly n points) is PROVED for secp256k1 as well (GL/PointCount.v, Props/Secp256k1.v: secp256k1_cofactor_is_one; instance C12_verify_iff_spec_secp256k1); the e = 0 (mod n) deviation needs a SHA-256 preimage to reach on secp256k1 and is reported in the evidence, "
                 "not as a finding. sha256 arbitrary with 32-byte output. Trusted: Coq kernel, extraction, harness, hashlib.",
         "technique": "Coq proof (Schnorr algebra over the abstract group, refinement to a BIP340 spec) + ast-generated constants + correspondence",
         "design": "DESIGN.md section 8 / C12",
@@ -224,18 +224,16 @@ CLAIMED = {
         "text": "Machine-checked proof (Coq 8.16.1) about a byte-exact model of send_tx (value layer over IEEE binary64 as SpecFloat with a "
                 "PrimFloat twin, message layer, assembly layer): inputs are a prefix of the reported unspents with exact outpoints, "
                 "selection stops when the request is covered, outputs have the stated shape, and outputs + fee (+ sub-dust change) = inputs "
-                "exactly (given the float-to-satoshi conversion is exact - kernel-computed for the boundary amounts - and the request is "
+                "exactly (given the float-to-satoshi conversion is exact - now a THEOREM for every amount 0..21e14 sat a node can report, Props/C16Sat.v via Flocq - and the request is "
                 "covered; both premises shown necessary); for every selected input, sighash flag, version, locktime and number of inputs "
                 "the signed messages ARE the legacy / BIP143 sighash pre-images (C16_segwit_messages, C16_legacy_sig_message_spec, "
                 "C16_legacy_messages; the SIGHASH_SINGLE-without-matching-output case is exactly the refusal) and every signature "
-                "verifies (C16_*_signatures_valid, C16_sign_inputs_valid for all eight sender kinds, under curve_facts). The send_tx "
+                "verifies (C16_*_signatures_valid, C16_sign_inputs_valid for all eight sender kinds, under curve_facts); C16_send_unlocks: the bytes send_tx returns are the serialisation of a well-formed transaction in which EVERY selected input's scriptSig items and witness stack satisfy the template-level validity predicate Spec.Sighash.unlocks (BIP16/141/143/147/66) for the output it spends - all eight kinds, any number of inputs, all six flags. The send_tx "
                 "signing defects found earlier are repaired in /repo (7 fix: commits, KNOWN_FINDINGS.txt fixed: lines, regression seeds); "
                 "no known finding remains. Correspondence: scripted UTXO source and "
                 "nonces, eight sender kinds x recipient kinds x flags x versions x locktimes, independent consensus-level checker "
                 "(own parser, legacy + BIP143 sighash, template unlock rules, OpenSSL ECDSA, exact Decimal arithmetic).",
-        "note": "PARTIAL by design: no script interpreter (validity is relative to the standard templates); sat_exact for all amounts and "
-                "request_covered are hypotheses; the p2wpkh scriptCode equality is a hypothesis; the full Spec.unlocks theorem is decided by "
-                "the correspondence oracle. PrimFloat/Uint63 "
+        "note": "No general script interpreter (validity is relative to the standard templates); hypotheses left: request_covered, and pays_to (the node's reply lists outputs that pay to the sender's keys, exactly m keys in script order for m-of-n). Props/C16Sat.v depends on the standard library's classical-reals axioms (ClassicalDedekindReals.sig_not_dec, sig_forall_dec, functional_extensionality_dep, classic) through Flocq; every other theorem is closed. PrimFloat/Uint63 "
                 "primitives appear in Print Assumptions of three examples. Trusted: Coq kernel, extraction, harness, OpenSSL.",
         "technique": "Coq proof (value conservation over binary64, legacy/BIP143 sighash refinement, signature validity under curve_facts) + extraction correspondence",
         "design": "DESIGN.md section 8 / C16",
